@@ -31,6 +31,9 @@ type hookLine struct {
 	Out    bool   `json:"out"`
 	NoMore bool   `json:"nomore"`
 	Locked bool   `json:"locked"`
+	// HReq is the request the attempt belongs to when the driver knows it (its own calls); traces of
+	// the repository's tests have only the key to go by
+	HReq int `json:"-"`
 }
 
 // ctlEvents turns the stamped hook lines of one broker into BrokerCtlTrace events.
@@ -73,11 +76,15 @@ func ctlEvents(lines []hookLine) (evs []brk.TraceEv, natt, nkeys int, err error)
 			dir := map[string]string{"input": "in", "output": "out"}[l.Dir]
 			if !known {
 				if strings.HasPrefix(l.Key, "BIDIR") {
-					base, ok := ioIDs[l.Key]
+					rk := l.Key
+					if l.HReq > 0 {
+						rk = fmt.Sprintf("request %d", l.HReq)
+					}
+					base, ok := ioIDs[rk]
 					if !ok {
 						base = next
 						next += 2
-						ioIDs[l.Key] = base
+						ioIDs[rk] = base
 						evs = append(evs, brk.TraceEv{"e": "ArriveIO", "a": base, "b": base + 1})
 					}
 					id = base
@@ -132,6 +139,7 @@ CONSTANTS
   Att = {%s}
   Keys = {%s}
   MaxReq = %d
+  MaxHangups = 0
   PerReqKey = TRUE
   EmitEdges = FALSE
 INVARIANTS NotAllConsumed OneShell Consistent IdleIsInitial ExactlyOneGone ReadyAtMostOncePerGen SameRequest AtMostOneIO NoMixIOUni
@@ -296,6 +304,7 @@ func freeRunLeg(r *ev.Run, prop string, n int) {
 				return
 			}
 			w.Record = true
+			w.SameHost = i%2 == 1
 			stopDrain := make(chan struct{})
 			go func() {
 				for {
@@ -343,7 +352,7 @@ func freeRunLeg(r *ev.Run, prop string, n int) {
 			var lines []hookLine
 			for _, e := range w.Trace {
 				lines = append(lines, hookLine{B: 1, Att: e.St.Att, P: e.Point, Dir: map[string]string{"in": "input", "out": "output"}[e.Dir],
-					Key: e.Key, Seq: e.Seq, SKey: e.St.Key, In: e.St.In, Out: e.St.Out, NoMore: e.St.NoMore, Locked: e.St.Locked})
+					Key: e.Key, Seq: e.Seq, HReq: e.Req, SKey: e.St.Key, In: e.St.In, Out: e.St.Out, NoMore: e.St.NoMore, Locked: e.St.Locked})
 			}
 			evs, na, nk, err := ctlEvents(lines)
 			if err != nil {
